@@ -191,6 +191,128 @@ def handleNewton (toks : List String) : String :=
       s!"ok x={fmtV x'} lamda2={fmtRat lam2} alpha={fmtRat alpha} margin={fmtRat mg} resid={fmtRat (Gen.C15.newtonResid C13.sqApprox lam2)}"
   | _, _, _, _, _, _ => "err bad-op"
 
+
+/-! ### the GENERATED machines (`Gen/C15Mach.lean`) on exact rationals -/
+open SigpyVerif.Gen.C15M
+
+/-- `f` applied `n` times -/
+def iterN {α : Type} (f : α → α) : Nat → α → α
+  | 0, a => a
+  | n + 1, a => iterN f n (f a)
+
+def getRL (toks : List String) (k : String) : Option (List Rat) := (kv toks k).bind parseRatList?
+
+/-- affine combination `Σ coef_i * v_i` (elementwise) -/
+def affine (cs : List Rat) (vs : List RVec) : RVec :=
+  match vs with
+  | [] => #[]
+  | v0 :: _ => (Array.range v0.size).map fun i =>
+      (List.zipWith (fun c (v : RVec) => c * v.getD i 0) cs vs).foldl (· + ·) 0
+
+def fmtRes {D : Type} (r : Res (AlgSt D)) (f : AlgSt D → String) : String :=
+  match r with
+  | Res.ok s => "ok " ++ f s
+  | Res.raised => "ok raised=1"
+  | Res.nofuel => "err fuel"
+
+/-- `ADMM`: `minL_x: x := px·(c0, z, u)`, `minL_z: z := soft(lam, qz·(x, u))`, `A v = a·v`, `B v = b·v`, `c`;
+    `k` generated updates (generated `Alg.update` ∘ generated `_update`) -/
+def handleAdmm (toks : List String) : String :=
+  match getRV toks "c0", getRV toks "x", getRV toks "z", getRV toks "u", getRL toks "px", getRL toks "qz",
+        getR toks "lam", getR toks "a", getR toks "b", getRV toks "c", (kv toks "k").bind parseInt? with
+  | some c0, some x, some z, some u, some px, some qz, some lam, some a, some b, some c, some k =>
+    if z.size ≠ x.size ∨ u.size ≠ x.size ∨ c0.size ≠ x.size ∨ c.size ≠ x.size ∨ px.length ≠ 3 ∨ qz.length ≠ 2 then "err size" else
+    let mx : ADMMData RVec → ADMMData RVec := fun d => { d with x := affine px [c0, d.z, d.u] }
+    let mz : ADMMData RVec → ADMMData RVec := fun d => { d with z := softThresh lam (affine qz [d.x, d.u]) }
+    let up := algUpdate (updADMM ratM mx mz (ratM.smul a) (ratM.smul b) c)
+    let s := iterN up k.toNat ⟨Gen.initIterADMM, ⟨x, z, u⟩⟩
+    s!"ok iter={s.iter} x={fmtV s.d.x} z={fmtV s.d.z} u={fmtV s.d.u}"
+  | _, _, _, _, _, _, _, _, _, _, _ => "err bad-op"
+
+/-- `g=none | aff:<g1>:<g0>` : `v ↦ g1·v + g0` -/
+def parseAff (s : String) : Option (Option (RVec → RVec)) :=
+  match s.splitOn ":" with
+  | ["none"] => some none
+  | ["aff", a, b] => do
+      let a ← parseRat? a; let b ← parseRat? b
+      some (some fun v => v.map fun t => a * t + b)
+  | _ => none
+
+/-- `AugmentedLagrangianMethod`: `minL: x := px·(c0, u, v)` -/
+def handleAlm (toks : List String) : String :=
+  match getRV toks "c0", getRV toks "x", getRV toks "u", getRV toks "v", getRL toks "px", (kv toks "g").bind parseAff,
+        (kv toks "h").bind parseAff, getR toks "mu", (kv toks "k").bind parseInt? with
+  | some c0, some x, some u, some v, some px, some g, some h, some mu, some k =>
+    if u.size ≠ x.size ∨ v.size ≠ x.size ∨ c0.size ≠ x.size ∨ px.length ≠ 3 then "err size" else
+    let minL : ALMData RVec → ALMData RVec := fun d => { d with x := affine px [c0, d.u, d.v] }
+    let up := algUpdate (updAugmentedLagrangianMethod ratM minL g h mu)
+    let s := iterN up k.toNat ⟨Gen.initIterAugmentedLagrangianMethod, ⟨x, u, v⟩⟩
+    s!"ok iter={s.iter} x={fmtV s.d.x} u={fmtV s.d.u} v={fmtV s.d.v}"
+  | _, _, _, _, _, _, _, _, _ => "err bad-op"
+
+/-- `AltMin` on a pair of vectors: `min1: a := p1·b + q1`, `min2: b := p2·a + q2` -/
+def handleAltMin (toks : List String) : String :=
+  match getRV toks "a", getRV toks "b", getRL toks "m1", getRL toks "m2", (kv toks "k").bind parseInt? with
+  | some a, some b, some m1, some m2, some k =>
+    if a.size ≠ b.size ∨ m1.length ≠ 2 ∨ m2.length ≠ 2 then "err size" else
+    let f1 : RVec × RVec → RVec × RVec := fun d => (d.2.map fun t => m1.getD 0 0 * t + m1.getD 1 0, d.2)
+    let f2 : RVec × RVec → RVec × RVec := fun d => (d.1, d.1.map fun t => m2.getD 0 0 * t + m2.getD 1 0)
+    let up := algUpdate (updAltMin f1 f2)
+    let s := iterN up k.toNat ⟨Gen.initIterAltMin, (a, b)⟩
+    s!"ok iter={s.iter} a={fmtV s.d.1} b={fmtV s.d.2}"
+  | _, _, _, _, _ => "err bad-op"
+
+def parsePair (s : String) : Option (Option (Rat × Rat)) :=
+  match s.splitOn ":" with
+  | ["none"] => some none
+  | [a, b] => do let a ← parseRat? a; let b ← parseRat? b; some (some (a, b))
+  | _ => none
+
+/-- the generated stopping block of `SDMM._update` on the norms the real update computed -/
+def handleSdmmStop (toks : List String) : String :=
+  match getR toks "epspri", getR toks "epsdual", kv toks "rs", (kv toks "norm").bind parsePair, (kv toks "max").bind parsePair with
+  | some ep, some ed, some rs, some nrm, some mx =>
+    let l := if rs == "-" then some [] else (rs.splitOn ",").mapM fun t => (parsePair t).bind id
+    match l with
+    | some l => s!"ok stop={fmtBool (sdmmStop ep ed l nrm mx)}"
+    | none => "err bad-op"
+  | _, _, _, _, _ => "err bad-op"
+
+/-- one generated `GradientMethod._update` (same request as `gm`); `sqrt` to 1e-20 -/
+def handleGmG (toks : List String) : String :=
+  match (kv toks "n").bind parseInt?, getRV toks "Q", getRV toks "c", getR toks "alpha",
+        (kv toks "accel").bind parseInt?, (kv toks "prox").bind parseProx, getRV toks "x", getRV toks "z",
+        getR toks "told" with
+  | some n, some Q, some c, some alpha, some acc, some prox, some x, some z, some told =>
+    let n := n.toNat
+    if Q.size ≠ n * n ∨ c.size ≠ n ∨ x.size ≠ n ∨ z.size ≠ n then "err size" else
+    if alpha == 0 then "err zerodiv" else
+    let gradf := fun v => rzip (· - ·) (rmatVec n n Q v) c
+    let s' := algUpdate (updGradientMethod ratM C13.sqApprox gradf prox alpha (acc != 0)) ⟨0, ⟨x, z, told, 0⟩⟩
+    s!"ok iter={s'.iter} x={fmtV s'.d.x} z={fmtV s'.d.z} t={fmtRat s'.d.t} resid={fmtRat s'.d.resid}"
+  | _, _, _, _, _, _, _, _, _ => "err bad-op"
+
+/-- one generated `NewtonsMethod._update` (same request as `newton`) -/
+def handleNewtonG (toks : List String) : String :=
+  match getRV toks "a", getRV toks "q", getRV toks "c", getRV toks "x", getR toks "beta",
+        (kv toks "fuel").bind parseInt? with
+  | some a, some q, some c, some x, some beta, some fuel =>
+    let n := x.size
+    if a.size ≠ n ∨ q.size ≠ n ∨ c.size ≠ n then "err size" else
+    let idx := Array.range n
+    let f : RVec → Rat := fun v => (idx.map fun i =>
+      let vi := v.getD i 0
+      a.getD i 0 * vi * vi * vi * vi / 4 + q.getD i 0 * vi * vi / 2 - c.getD i 0 * vi).foldl (· + ·) 0
+    let gradf : RVec → RVec := fun v => idx.map fun i =>
+      let vi := v.getD i 0
+      a.getD i 0 * vi * vi * vi + q.getD i 0 * vi - c.getD i 0
+    let hd : RVec → RVec := fun v => idx.map fun i => let vi := v.getD i 0; 3 * a.getD i 0 * vi * vi + q.getD i 0
+    if (hd x).any (· == 0) then "err zerodiv" else
+    let invH : RVec → RVec → RVec := fun v w => rzip (· / ·) w (hd v)
+    fmtRes (algUpdateR (updNewtonsMethod ratM C13.sqApprox gradf invH f beta fuel.toNat) ⟨0, ⟨x, 0, 0⟩⟩)
+      fun s => s!"raised=0 iter={s.iter} x={fmtV s.d.x} lamda2={fmtRat s.d.lamda2} resid={fmtRat s.d.residual}"
+  | _, _, _, _, _, _ => "err bad-op"
+
 /-- protocol handler for property C15 (tokens after the property id). -/
 def handle (toks : List String) : String :=
   match toks.head? with
@@ -211,5 +333,11 @@ def handle (toks : List String) : String :=
   | some "gm" => handleGm toks
   | some "pdhgG" => handlePdhgG toks
   | some "newton" => handleNewton toks
+  | some "admm" => handleAdmm toks
+  | some "alm" => handleAlm toks
+  | some "altmin" => handleAltMin toks
+  | some "sdmmstop" => handleSdmmStop toks
+  | some "gmG" => handleGmG toks
+  | some "newtonG" => handleNewtonG toks
   | _ => "err bad-op"
 end SigpyVerif.Drv.C15
